@@ -143,11 +143,20 @@ class Streams:
 class Entropy:
     """Replacement for os.urandom during a run: bytes from a seeded stream."""
 
+    current = None  # the Entropy object in force (one run at a time per process)
+
     def __init__(self, seed_text):
+        self.seed_text = seed_text
         d = hashlib.sha256(("entropy:%s" % seed_text).encode()).digest()
         self._rng = random.Random(int.from_bytes(d[:16], "big"))
         self.calls = 0
         self._real = None
+
+    def in_child(self, k):
+        """After a simulated fork: the OS hands a child process other random bytes than its
+        parent (kernel entropy is not copied by fork), so the child gets its own stream."""
+        d = hashlib.sha256(("entropy:%s:child:%s" % (self.seed_text, k)).encode()).digest()
+        self._rng = random.Random(int.from_bytes(d[:16], "big"))
 
     def urandom(self, n):
         self.calls += 1
@@ -156,10 +165,12 @@ class Entropy:
     def __enter__(self):
         self._real = os.urandom
         os.urandom = self.urandom
+        Entropy.current = self
         return self
 
     def __exit__(self, *a):
         os.urandom = self._real
+        Entropy.current = None
         return False
 
 
